@@ -32,6 +32,8 @@ pub struct Nlp {
     nump: u8,
 
     /// Node, lap and position of each player.
-    #[br(count = nump)]
+    // Each NodeLapInfo is 6 bytes: an odd count needs 2 spare bytes to keep the packet a multiple of 4.
+    #[br(count = nump, pad_after = (nump % 2) * 2)]
+    #[bw(pad_after = (info.len() % 2) * 2)]
     pub info: Vec<NodeLapInfo>,
 }
